@@ -8,7 +8,7 @@ MANIFEST = dict(
    note="Trusted: Lean kernel; axioms propext/Classical.choice/Quot.sound only; the translator (regexp/syntax AST -> Lean term; validated by comparing Re.accepts with Go regexp on every generated case); the specification automata in Model/FormatSpec.lean as the reading of the documented formats; Go regexp semantics as the reading of a JSON-Schema pattern. Parser-based validators (netip.ParseAddr/ParsePrefix, time.Parse) are modelled by hand transcription (netip: by the definition itself) validated on generated cases and tied by a go/ast structure fingerprint of the validator functions; time.Parse(RFC3339) has no all-strings theorem. IPv6 family on strings with '.' or '%': two independent readings of RFC 4291 (automaton and list-based) vs the library on generated cases.",
    design="DESIGN.md §5 C20; notes/C20.md")
 
-MODULES = ["Gozod.Proofs.C20", "Gozod.Proofs.C20DateTime", "Gozod.Proofs.C20Parsers", "Gozod.Proofs.C20Rfc3339", "Gozod.Proofs.C20V6Dot", "Gozod.Proofs.C20Base64URL", "Gozod.Proofs.C20Netip"]
+MODULES = ["Gozod.Proofs.C20", "Gozod.Proofs.C20DateTime", "Gozod.Proofs.C20Parsers", "Gozod.Proofs.C20Rfc3339", "Gozod.Proofs.C20V6Dot", "Gozod.Proofs.C20Base64URL", "Gozod.Proofs.C20Netip", "Gozod.Proofs.C20IsoTime"]
 REGEX_FORMATS = ["ipv4", "hex", "e164", "mac", "macdash", "base64", "uuid", "uuidv4", "uuidv6", "uuidv7", "guid"]
 OPTION_JOBS = ["macdot"] + ["tmo_" + p for p in "nm01239"]
 DTO = ["%s_%s_%s" % (p, o, l) for p in "nm01239" for o in "01" for l in "01"]   # IsoDateTime(options): precision x offset x local
@@ -40,15 +40,18 @@ THEOREMS = (["Gozod.C20.bisim_sound", "Gozod.C20.bisim_sound_full"]
     + ["Gozod.C20.run_inv", "Gozod.C20.base64url_len", "Gozod.C20.badLen_len", "Gozod.C20.c20_base64url"]
     # validator side of CIDRv4: netip.ParsePrefix / ParseAddr / parseIPv4Fields / strconv.Atoi transcribed from the Go source = the definition, all strings
     + ["Gozod.C20.ipv4Fields_run", "Gozod.C20.addrKind_of_run", "Gozod.C20.parseAddrIs4_run", "Gozod.C20.prefixBits_run", "Gozod.C20.cidr_split",
-       "Gozod.C20.c20_cidrv4_netip"])
+       "Gozod.C20.c20_cidrv4_netip"]
+    # the default IsoTime(): exported pattern = definition; validator's own pattern = definition outside hh:mm:ss ',' digit+ (witness)
+    + ["Gozod.C20.extend_run", "Gozod.C20.isoTimeC_run", "Gozod.C20.c20_isotime_pattern", "Gozod.C20.c20_isotime_partial", "Gozod.C20.c20_isotime_witness",
+       "Gozod.C20.c20_isotime_validator_vs_pattern"])
 
 # certificate job -> format name of the correspondence
 JOB_FORMAT = {"isodatetime_optsec": "isodatetime", "isodatetime_partial": "isodatetime", "base64url_partial": "base64url",
               "dtt_rfc_optsec": "isodatetime", **{"dtt_" + x: "dto_" + x for x in DTO},
               "ipv6_nopct": "ipv6", "ipv6_partial": "ipv6", "cidrv6_nopct": "cidrv6", "cidrv6_partial": "cidrv6",
-              "ipv6_dot": "ipv6", "cidrv6_dot": "cidrv6"}
+              "ipv6_dot": "ipv6", "cidrv6_dot": "cidrv6", "isotime_pat": "isotime", "isotime_partial": "isotime"}
 # jobs whose certificate the proof module imports (a `differ` there breaks a theorem)
-REQUIRED_JOBS = set(REGEX_FORMATS) | {"cidrv4", "isodate", "isodatetime_optsec", "isodatetime_partial", "base64url_partial"} | set(OPTION_JOBS) | {"ipv6_partial", "cidrv6_partial", "ipv6_dot", "cidrv6_dot"} | set(TAIL_JOBS)
+REQUIRED_JOBS = set(REGEX_FORMATS) | {"cidrv4", "isodate", "isodatetime_optsec", "isodatetime_partial", "base64url_partial"} | set(OPTION_JOBS) | {"ipv6_partial", "cidrv6_partial", "ipv6_dot", "cidrv6_dot", "isotime_pat", "isotime_partial"} | set(TAIL_JOBS)
 
 GEN = os.path.join(C.LEAN, "Gozod", "Gen")
 
@@ -65,6 +68,9 @@ def classify(fmt, s):
         if all(c in B64URL for c in body):
             if b"=" not in s and len(s) % 4 == 1: return "unpadded-length-1-mod-4"
             if b"=" in s: return "padding-not-completing-a-group"
+        return "other"
+    if fmt == "isotime":
+        if re.fullmatch(r"\d\d:\d\d:\d\d,\d+", t): return "comma-fraction"
         return "other"
     if fmt == "isodatetime":
         if "," in t: return "comma-fraction"
